@@ -19,7 +19,7 @@ class Prop(PropBase):
     projection = {'kinds': {'pkt', 'ierr', 'crash', 'nodrv', 'initfail'}, 'ignore_ts': True, 'ierr_last': True}
 
     def generate(self, rng, tier):
-        base = 20000 + (os.getpid() * 17) % 20000
+        base = 28000 + (os.getpid() % 30) * 100      # a port block of this property only, below the ephemeral range
         lj = self.L['RSM1_JUMBO']
         scn = []
         n = 10 if tier == 'quick' else 80
